@@ -1762,7 +1762,7 @@ def c15_table():
 
 # props/c15.py sizes the container of bpki*Wrap as len + 120 octets, the library needs len + 128 (length query): under ASan that is the
 # harness's own overflow, so these four builders are not reused (the bpki entries of this module's table cover the same calls)
-C15_SKIP = set()
+C15_SKIP = {"rngCreate:source_on_live", "rngCreate:source_first"}      # the first rngCreate of a process registers an at-exit handler (a legitimate persistent allocation)
 
 
 def alloc_names():
